@@ -112,6 +112,12 @@ func checkC01(c *Check) {
 	// failure report for any message of this client that fails on its first attempt".
 	c.Rule("R10", "failure report writers (internal/dsn): the block of an optional field (guarded by a non-empty test of that field) never returns an error – a value that cannot be represented drops the field, not the report", 3)
 	c01OptionalFields(c)
+
+	// R11/R12: clauses anchored under other properties that "no recipient is lost" rests on as well
+	c.Rule("R11", "the retry wheel's callback never waits on the wheel's own goroutine (a wedged wheel attempts and reports nothing) (C02.R10)", 1)
+	importRules(c, "C02", c02WheelCallback, map[string]bool{"R10": true}, "R11")
+	c.Rule("R12", "the record written to the spool differs from the live one in nothing but the stripped connection state: SMTPUTF8 and the other envelope options are there for the attempts that read the record back (a report for an internationalized recipient needs them) (C10.R1c)", 1)
+	importRules(c, "C10", checkC10, map[string]bool{"R1c": true}, "R12")
 }
 
 func c01OptionalFields(c *Check) {
